@@ -437,8 +437,13 @@ func VerifC03Local() {
 func VerifC03KeyShapes() {
 	n := nd.Param("n", 2)
 	c := vClient(true)
-	nd.Assert(AddIndex(vCtx, c, vTbl, "inv", "s", "p") == nil, "setup-addindex-inv")
-	nd.Assert(AddIndex(vCtx, c, vTbl, "gx", "g", "") == nil, "setup-addindex-gx")
+	// the indexes exist before the items are written, or are created over the items afterwards (back-fill: the
+	// order of the index keys is in general not the order of the primary keys)
+	late := nd.Choice("indexes-created-late", 2) == 1
+	if !late {
+		nd.Assert(AddIndex(vCtx, c, vTbl, "inv", "s", "p") == nil, "setup-addindex-inv")
+		nd.Assert(AddIndex(vCtx, c, vTbl, "gx", "g", "") == nil, "setup-addindex-gx")
+	}
 	m := &vModel{withRange: true}
 	for i := 0; i < n; i++ {
 		nm := "k" + string(rune('0'+i))
@@ -470,6 +475,11 @@ func VerifC03KeyShapes() {
 			nd.Assert(vPut(c, m.full(k, attrs)) == nil, "C03-shapes-put-noerr")
 			m.put(k, attrs)
 		}
+	}
+	if late {
+		nd.Reach("indexes-created-late")
+		nd.Assert(AddIndex(vCtx, c, vTbl, "inv", "s", "p") == nil, "late-addindex-inv")
+		nd.Assert(AddIndex(vCtx, c, vTbl, "gx", "g", "") == nil, "late-addindex-gx")
 	}
 	check := func(idx, hashAttr string, in func(r vRow) (string, bool), id string) {
 		want := 0
